@@ -47,7 +47,7 @@ theorem wf_array {pl : Place} {n : Nat} {e : Ty} (hw : PlWf pl) (hty : pl.ty = .
   exact ⟨this.1.1, this.1.2⟩
 
 /-- `focus` on a non-scalar place -/
-theorem focus_step {st st' : St} {pl : Place} (hp : Plain st) (hw : PlWf pl)
+theorem focus_step {st st' : St} {pl : Place} (hp : Flat st st.sub) (hw : PlWf pl)
     (hty : (st.obj st.sub).ty = pl.ty) (hoff : (st.obj st.sub).offset = pl.off) (e : focus st = .ok st') :
     ∃ ch, childAt pl 0 true = some ch ∧ st'.sub = st.sub + 1 ∧ Lvl st' st.sub pl 0 ch ∧
       SP st' (st.sub + 1) ch ∧ Frame st.sub st st' ∧ st'.log = st.log ∧
@@ -89,7 +89,7 @@ theorem focus_step {st st' : St} {pl : Place} (hp : Plain st) (hw : PlWf pl)
 
 /-- `advance` from the sub-object `pos` of slot `k` to the next one -/
 theorem advance_step {st st' : St} {k f : Nat} {pl ch ch' : Place} {pos : Nat} (hs : st.sub = k + 1)
-    (hp : Plain st) (hw : PlWf pl) (hl : Lvl st k pl pos ch) (hc : childAt pl (pos + 1) true = some ch')
+    (hp : Flat st k) (hw : PlWf pl) (hl : Lvl st k pl pos ch) (hc : childAt pl (pos + 1) true = some ch')
     (e : advance (f + 1) st = .ok st') :
     st'.sub = k + 1 ∧ Lvl st' k pl (pos + 1) ch' ∧ SP st' (k + 1) ch' ∧ Frame k st st' ∧ st'.log = st.log ∧
       (st'.obj k).iscur = (st.obj k).iscur ∧ (st'.obj (k + 1)).iscur = false := by
@@ -99,7 +99,7 @@ theorem advance_step {st st' : St} {k f : Nat} {pl ch ch' : Place} {pos : Nat} (
   dsimp only [] at e
   have hk : st.sub - 1 = k := by omega
   rw [hk] at e
-  have hp0 : Plain { st with sub := k } := ⟨hp.inc, hp.top⟩
+  have hp0 : Flat { st with sub := k } k := hp.sub k
   have hfin : ∀ {u : U} {t : Ty} {off : Nat},
       subobj (({ st with sub := k } : St).setSlot k { st.obj k with u := u }) t off = .ok st' →
       ch'.ty = t → ch'.off = off + pl.off → UAt u pl.ty (pos + 1) →
@@ -166,31 +166,23 @@ theorem advance_step {st st' : St} {k f : Nat} {pl ch ch' : Place} {pos : Nat} (
 
 /-- `advance` leaves slot `k` when its sub-objects are used up -/
 theorem advance_pop {st st' : St} {k f : Nat} {pl ch : Place} {pos : Nat} (hs : st.sub = k + 1)
-    (hp : Plain st) (hw : PlWf pl) (hl : Lvl st k pl pos ch) (hc : childAt pl (pos + 1) true = none)
+    (hp : Flat st k) (hw : PlWf pl) (hl : Lvl st k pl pos ch) (hc : childAt pl (pos + 1) true = none)
     (e : advance (f + 1) st = .ok st') :
-    st.cur ≠ some k ∧ ∃ st1, advance f st1 = .ok st' ∧ st1.sub = k ∧ Frame k st st1 ∧ st1.log = st.log ∧
-      Plain st1 := by
+    st.cur ≠ some k ∧ ∃ st1, advance f st1 = .ok st' ∧ st1.sub = k ∧ Frame k st st1 ∧ st1.log = st.log := by
   rw [advance] at e
   split at e
   · omega
   dsimp only [] at e
   have hk : st.sub - 1 = k := by omega
   rw [hk] at e
-  have hp0 : Plain { st with sub := k } := ⟨hp.inc, hp.top⟩
+  have hp0 : Flat { st with sub := k } k := hp.sub k
   have hu := hl.u
-  have hset : ∀ (u : U), Frame k st (({ st with sub := k } : St).setSlot k { st.obj k with u := u }) ∧
-      Plain (({ st with sub := k } : St).setSlot k { st.obj k with u := u }) := by
+  have hset : ∀ (u : U), Frame k st (({ st with sub := k } : St).setSlot k { st.obj k with u := u }) := by
     intro u
-    refine ⟨⟨rfl, rfl, rfl, ?_⟩, ⟨hp.inc, ?_⟩⟩
-    · intro j hj
-      have : j ≠ k := by omega
-      simp [St.setSlot, this]
-    · show st.top = _
-      rw [hp.top]
-      simp only [St.setSlot]
-      split
-      · rename_i h0; rw [h0]
-      · rfl
+    refine ⟨rfl, rfl, rfl, ?_⟩
+    intro j hj
+    have : j ≠ k := by omega
+    simp [St.setSlot, this]
   split at e
   · -- array
     rename_i n el hty'
@@ -214,7 +206,7 @@ theorem advance_pop {st st' : St} {k f : Nat} {pl ch : Place} {pos : Nat} (hs : 
         · cases e
         · rename_i hne
           exact ⟨fun h => hne (by simp only [St.setSlot]; exact h.symm),
-            _, e, rfl, (hset _).1, rfl, (hset _).2⟩
+            _, e, rfl, hset _, rfl⟩
     · cases hch
   · -- struct
     rename_i tag size ms hty'
@@ -238,11 +230,11 @@ theorem advance_pop {st st' : St} {k f : Nat} {pl ch : Place} {pos : Nat} (hs : 
         · cases e
         · rename_i hne
           exact ⟨fun h => hne (by simp only [St.setSlot]; exact h.symm),
-            _, e, rfl, (hset _).1, rfl, (hset _).2⟩
+            _, e, rfl, hset _, rfl⟩
   · -- union (or scalar)
     split at e
     · cases e
     · rename_i hne
-      refine ⟨fun h => hne (by exact h.symm), _, e, rfl, ⟨rfl, rfl, rfl, fun _ _ => rfl⟩, rfl, hp0⟩
+      refine ⟨fun h => hne (by exact h.symm), _, e, rfl, ⟨rfl, rfl, rfl, fun _ _ => rfl⟩, rfl⟩
 
 end CprocVerif.InitSim
